@@ -100,7 +100,9 @@ func c20Run(c *h.Ctx) {
 				holeBefore += fmt.Sprint(p.HoleCards)
 			}
 		}
+		mu.Lock()
 		start := len(views)
+		mu.Unlock()
 		for _, a := range actors {
 			a.GetTable().UpdateTableState(t)
 		}
@@ -257,6 +259,28 @@ func c20Run(c *h.Ctx) {
 		return
 	}
 	pending := e.Setup
+	// in a third of the cases a second goroutine keeps publishing table-level events, so that two engine goroutines
+	// deliver snapshots to the same actors at the same time
+	noiseStop := make(chan struct{})
+	noiseDone := make(chan struct{})
+	if c.Case%3 == 1 {
+		c.Feature("concurrent-publications")
+		go func() {
+			defer close(noiseDone)
+			for {
+				select {
+				case <-noiseStop:
+					return
+				default:
+				}
+				s.TE.PlayerExtendActionDeadline("", 0)
+				time.Sleep(time.Duration(50+rand.Intn(300)) * time.Microsecond)
+			}
+		}()
+	} else {
+		close(noiseDone)
+	}
+	defer func() { close(noiseStop); <-noiseDone }()
 	ending := []string{"showdown", "fold-out", "pause-mid-hand", "close-mid-hand"}[c.Case%4]
 	hands := 1 + r.Intn(3)
 	for hno := 1; hno <= hands && !c.Failed(); hno++ {
@@ -340,7 +364,7 @@ func init() {
 			return map[string]int{"quick": 420, "thorough": 7000}[tier]
 		},
 		RequiredFeatures: func(string) []string {
-			return []string{"observer-view:table_game_playing", "observer-view:table_game_settled", "observer-view:table_closed", "system-observer-view:table_game_playing", "recorder-view:table_closed", "closed-with-hand-attached", "republished-by:extend", "republished-by:redeem", "first-actor:observer", "first-actor:scribbler", "first-actor:system-observer", "ending:showdown", "ending:fold-out"}
+			return []string{"observer-view:table_game_playing", "observer-view:table_game_settled", "observer-view:table_closed", "system-observer-view:table_game_playing", "recorder-view:table_closed", "closed-with-hand-attached", "republished-by:extend", "republished-by:redeem", "first-actor:observer", "first-actor:scribbler", "first-actor:system-observer", "ending:showdown", "ending:fold-out", "concurrent-publications"}
 		},
 		CaseTimeout: 120e9,
 		Run:         c20Run,
